@@ -374,6 +374,7 @@ func (t *gsTr) bufferFunction(ss []ast.Stmt, byteVars map[string]string, fallibl
 type gsIdents struct {
 	t        *gsTr
 	ids      string // the identity list variable
+	idsEmpty bool   // the list is statically known to be empty at this point
 	loopText string // the generated Fixpoint for the loop
 }
 
@@ -399,6 +400,7 @@ func (g *gsIdents) body(ss []ast.Stmt) string {
 			if _, isArr := cl.Type.(*ast.ArrayType); isArr {
 				if s.Tok == token.DEFINE && len(cl.Elts) == 0 && g.ids == "" {
 					g.ids = lhs0
+					g.idsEmpty = true
 					t.env["len("+lhs0+")"] = gsVal{"(Z.of_nat (length " + lhs0 + "))", "int"}
 					return "let " + lhs0 + " : list bytes := [] in\n  " + rest(1)
 				}
@@ -408,9 +410,43 @@ func (g *gsIdents) body(ss []ast.Stmt) string {
 						if v.typ != "u64" {
 							return t.failS("makeSlotIdentityPreimage argument is not a uint64")
 						}
+						g.idsEmpty = false
 						return "let " + lhs0 + " := [gen_slot_identity " + v.coq + "] in\n  " + rest(1)
 					}
 				}
+			}
+		}
+		// x := <expression that is a configuration field or parameter>: a pure alias, inlined
+		if s.Tok == token.DEFINE && len(s.Lhs) == 1 {
+			if v, ok := t.env[gsText(s.Rhs[0])]; ok && (v.typ == "u64" || v.typ == "i64") && strings.Contains(gsText(s.Rhs[0]), ".") {
+				t.env[lhs0] = v
+				return rest(1)
+			}
+		}
+		// ids := make([]T, 0[, capacity]): the empty list (a capacity has no meaning here)
+		if call, ok := s.Rhs[0].(*ast.CallExpr); ok && s.Tok == token.DEFINE && len(s.Lhs) == 1 && gsText(call.Fun) == "make" && g.ids == "" &&
+			(len(call.Args) == 2 || len(call.Args) == 3) && gsText(call.Args[1]) == "0" {
+			if _, isArr := call.Args[0].(*ast.ArrayType); isArr {
+				g.ids = lhs0
+				g.idsEmpty = true
+				t.env["len("+lhs0+")"] = gsVal{"(Z.of_nat (length " + lhs0 + "))", "int"}
+				return "let " + lhs0 + " : list bytes := [] in\n  " + rest(1)
+			}
+		}
+		// ids = append(ids, makeSlotIdentityPreimage(slot)); on the statically empty list this is
+		// the one-element list
+		if call, ok := s.Rhs[0].(*ast.CallExpr); ok && s.Tok == token.ASSIGN && len(s.Lhs) == 1 && lhs0 == g.ids && g.ids != "" &&
+			gsText(call.Fun) == "append" && len(call.Args) == 2 && gsText(call.Args[0]) == g.ids {
+			if inner, ok := call.Args[1].(*ast.CallExpr); ok && gsText(inner.Fun) == "makeSlotIdentityPreimage" && len(inner.Args) == 1 {
+				v := t.expr(inner.Args[0])
+				if v.typ != "u64" {
+					return t.failS("makeSlotIdentityPreimage argument is not a uint64")
+				}
+				if g.idsEmpty {
+					g.idsEmpty = false
+					return "let " + lhs0 + " := [gen_slot_identity " + v.coq + "] in\n  " + rest(1)
+				}
+				return "let " + lhs0 + " := " + lhs0 + " ++ [gen_slot_identity " + v.coq + "] in\n  " + rest(1)
 			}
 		}
 		if call, ok := s.Rhs[0].(*ast.CallExpr); ok && s.Tok == token.DEFINE {
@@ -496,6 +532,9 @@ func (g *gsIdents) body(ss []ast.Stmt) string {
 			}
 			if gsText(s.Results[0]) == g.ids {
 				return "GenOk " + g.ids
+			}
+			if call, ok := s.Results[0].(*ast.CallExpr); ok && gsText(call.Fun) == "sortIdentityPreimages" && len(call.Args) == 1 && gsText(call.Args[0]) == g.ids && g.ids != "" {
+				return "GenOk (gen_sort_identities " + g.ids + ")"
 			}
 		}
 	}
@@ -1073,6 +1112,11 @@ func genGnosisSlotFuns(repo string) (string, error) {
 		for _, st := range fd.Body.List {
 			as, ok := st.(*ast.AssignStmt)
 			if !ok || len(as.Rhs) != 1 {
+				continue
+			}
+			// x := len(<msg>.Keys): a pure alias, inlined
+			if v, ok := t.env[gsText(as.Rhs[0])]; ok && as.Tok == token.DEFINE && len(as.Lhs) == 1 && v.typ == "int" && strings.HasPrefix(gsText(as.Rhs[0]), "len(") {
+				t.env[gsText(as.Lhs[0])] = v
 				continue
 			}
 			if as.Tok == token.DEFINE && len(as.Lhs) == 1 && gsText(as.Lhs[0]) == "newTxPointer" {
